@@ -10,7 +10,8 @@
 //	cat:<path>    copy a file to stdout
 //	exit:<n>      exit with status n
 //	kill:<sig>    kill itself with a signal number
-//	hang          block until killed
+//	hang          block until killed (at most 90 s)
+//	spawn:<name>  start a detached grandchild "<name>;hang" that inherits stdout
 //	mark:<path>   create a file (proof that the child ran)
 //
 // With a control socket every step is a handshake with the simulator ("at i step" -> "go",
@@ -24,9 +25,11 @@ import (
 	"io"
 	"net"
 	"os"
+	"os/exec"
 	"strconv"
 	"strings"
 	"syscall"
+	"time"
 )
 
 func main() {
@@ -109,9 +112,16 @@ func main() {
 			send("exiting sig" + arg)
 			syscall.Kill(os.Getpid(), syscall.Signal(n))
 			select {}
+		case "spawn":
+			// start a detached grandchild that inherits stdout/stderr and hangs
+			gc := exec.Command(os.Args[0], sock, arg+";hang")
+			gc.Stdout, gc.Stderr = os.Stdout, os.Stderr
+			err := gc.Start()
+			send(fmt.Sprintf("done spawn %v", err == nil))
 		case "hang":
 			send("hanging")
-			select {}
+			time.Sleep(90 * time.Second) // orphans must not accumulate
+			os.Exit(96)
 		default:
 			send("done unknown")
 		}
